@@ -139,6 +139,10 @@ func (k *DNSKEY) KeyTag() uint16 {
 	keywire.Algorithm = k.Algorithm
 	keywire.PublicKey = k.PublicKey
 	wire := make([]byte, DefaultMsgSize)
+	if len(k.PublicKey) > DefaultMsgSize/2 {
+		// Room for a key of any size (its base64 text is longer than the key).
+		wire = make([]byte, DefaultMsgSize+len(k.PublicKey))
+	}
 	n, err := packKeyWire(keywire, wire)
 	if err != nil {
 		return 0
@@ -177,6 +181,10 @@ func (k *DNSKEY) ToDS(h uint8) *DS {
 	keywire.Algorithm = k.Algorithm
 	keywire.PublicKey = k.PublicKey
 	wire := make([]byte, DefaultMsgSize)
+	if len(k.PublicKey) > DefaultMsgSize/2 {
+		// Room for a key of any size (its base64 text is longer than the key).
+		wire = make([]byte, DefaultMsgSize+len(k.PublicKey))
+	}
 	n, err := packKeyWire(keywire, wire)
 	if err != nil {
 		return nil
